@@ -86,6 +86,9 @@ def families(rng):
                "dataset": {"d1": {"megacomplex": ["s"]}, "d2": {"megacomplex": ["s"], "scale": "sc"}, "d3": {"megacomplex": ["s"], "scale": "sc3"}}},
               base + [["sc", float(rng.uniform(1.5, 3.0)), {"vary": False}], ["sc3", float(rng.uniform(0.3, 0.7)), {"vary": False}]],
               {"d1": ["a", "b"], "d2": ["a", "b"], "d3": ["a", "b"]}, False, "parallel"))
+    F.append(("single compartment, two unlinked datasets",
+              {"megacomplex": {"s": {"type": "decay-parallel", "compartments": ["a"], "rates": ["k2"]}}, "dataset_groups": {"default": {"link_clp": False}},
+               "dataset": {"d1": {"megacomplex": ["s"]}, "d2": {"megacomplex": ["s"]}}}, base, {"d1": ["a"], "d2": ["a"]}, False, "parallel"))
     F.append(("three unlinked datasets", {"megacomplex": {"s": {"type": "decay-sequential", "compartments": ["a", "b"], "rates": ["k1", "k2"]}}, "dataset_groups": {"default": {"link_clp": False}},
                                           "irf": IRF_G, "dataset": {"d1": {"megacomplex": ["s"], "irf": "g"}, "d2": {"megacomplex": ["s"], "irf": "g"}, "d3": {"megacomplex": ["s"], "irf": "g"}}}, base,
               {"d1": ["a", "b"], "d2": ["a", "b"], "d3": ["a", "b"]}, False, "sequential"))
